@@ -290,9 +290,16 @@ def arch_block(ctx, families=None, mean_units=None):
     r = ctx.rng
     nb = r.randint(2, 3)
     els = [ctx.plain()]
+    capped_last = r.random() < 0.35  # the last block is closed by end groups instead of a suffix token
     for b in range(nb):
-        u = [ctx.unit([ctx.lt(), ctx.gt()]) for _ in range(r.choice([1, 1, 2]))]
+        u = [ctx.unit([ctx.lt(weight=r.choice([None, None, ctx.weight()])), ctx.gt()]) for _ in range(r.choice([1, 1, 2]))]
         lt, rt = ctx.gt(), ctx.lt()
+        if capped_last and b == nb - 1:
+            ends = [ctx.end(ctx.lt(weight=ctx.weight()))]
+            if r.random() < 0.5:
+                ends.append(ctx.end(ctx.gt(weight=ctx.weight())))
+            els.append(StochAst(D(lt.sym, lt.id), D(""), u, ends, _dist_for(ctx, u, mean_units, families=families)))
+            return MolAst(els, arch="block")
         s = StochAst(D(lt.sym, lt.id), D(rt.sym, rt.id), u, [], _dist_for(ctx, u, mean_units, families=families))
         els.append(s)
         if b < nb - 1:
